@@ -103,6 +103,9 @@ def check(argv):
     from contracts import idexpr
 
     report.guarded("context contracts", idexpr.run, report, {"context"})
+    from contracts import graph_context
+
+    report.guarded("iteration-graph context contracts", graph_context.run, report)
     fam = KC.family_for(tier, seed, params["per_assignment"] * 2)
     t0 = time.time()
     with mp.get_context("fork").Pool(16) as pool:
@@ -129,7 +132,7 @@ def check(argv):
     report.samples = [dict(key=r["key"], qualifying=r["ks"]) for r in res if r["ks"]][:6]
     report.trusted.append("dead-variable analysis of standins/static_ir.py is syntactic (occurrence count of <k>_dim)")
     report.assumptions = COMMON_ASSUMPTIONS
-    return report.finish(explanation="Kind A: extract_context*, Context.add/multiply proved against the documented sparsity rule sparse_spec (all expressions, all indexes). Kind B, per evaluate kernel of the family with a qualifying index k (all inputs): the variable k_dim is dead after its declaration, "
+    return report.finish(explanation="Kind A: extract_context*, Context.add/multiply proved against the documented sparsity rule sparse_spec (all expressions, all indexes); extract_context of the iteration-graph nodes (terminal, iteration, sum - the sum's loop with its invariant) lifts the rule to graphs: a sum is sparse iff all its terms are. Kind B, per evaluate kernel of the family with a qualifying index k (all inputs): the variable k_dim is dead after its declaration, "
                          "so no loop bound, branch or position can depend on the dimension size. Kind C: executed loop iterations and steps are identical when "
                          "the dimension is scaled x1, x10, x10^4 with the same stored entries.")
 
